@@ -126,6 +126,10 @@ def changed_options(c: dict) -> list[str]:
                 _, opts = mm.process_options(list(args) + ["main.py"], require_targets=False)
             except SystemExit:
                 return []
+            try:        # build_inner derives enabled/disabled_error_codes from the lists
+                opts.process_error_codes(error_callback=lambda m: None)
+            except Exception:
+                pass
         snaps.append({k: repr(v) for k, v in vars(opts).items() if not k.startswith("_")})
     return sorted(k for k in snaps[0] if snaps[0][k] != snaps[1].get(k))
 
